@@ -19,7 +19,7 @@ open EupsModel EupsModel.Setup
 theorem C01_dir_preserved (db : Db) (fuel : Nat) (fwd : Bool) (r : Request) (e : Setup.Env) (s' : St)
     (hok : DirOK db e)
     (h : (if fwd then runSetup db fuel r e else runUnsetup db fuel r e) = .ok s') : DirOK db s'.env := by
-  have key := setup_subjInv (r.cfg db) (fun _ _ => True) (DirOK db) (fun _ _ _ _ _ _ _ _ _ _ _ _ _ => trivial)
+  have key := setup_subjInv (r.cfg db) (fun _ _ => True) (DirOK db) (fun _ _ _ _ _ _ _ _ _ _ _ _ _ _ => trivial)
     (dirOK_subjInv (r.cfg db)) fuel
   cases fwd with
   | true => exact key true 0 false r.vro r.name r.version none (St.init e) s' trivial (by intro n d x h; simp [St.init, aget] at h) hok h
@@ -78,24 +78,25 @@ theorem C01_envOK_preserved_partial (db : Db) (rank : Name → Nat) (hdag : Name
 /-! ## clause 4: an explicitly named version is the one set up -/
 
 theorem C01_explicit_version_partial (db : Db) (rank : Name → Nat) (hdag : NameDag db rank) (fuel : Nat)
-    (r : Request) (v : Ver) (hv : r.version = some (.explicit v)) (e : Setup.Env) (s' : St)
-    (h : runSetup db fuel r e = .ok s') : s'.env.rec? r.name = some v := by
+    (r : Request) (v : VStr) (hv : r.version = some (.explicit v)) (e : Setup.Env) (s' : St)
+    (h : runSetup db fuel r e = .ok s') : ∃ k, s'.env.rec? r.name = some (v, k) := by
   unfold runSetup at h
   cases fuel with
   | zero => simp [setup_zero] at h
   | succ k =>
     rw [setup_succ_true] at h
     have ha0 : AlreadyOK (r.cfg db).db (St.init e).already := by intro n d x h; simp [St.init, aget] at h
-    cases hres : resolve (r.cfg db).db (r.cfg db).keep (St.init e).already r.name r.version none 0 r.vro.length r.vro with
+    cases hres : resolve (r.cfg db).db (r.cfg db).path (r.cfg db).keep (St.init e).already r.name r.version none 0 r.vro.length r.vro with
     | none => rw [hres] at h; cases h
     | error => rw [hres] at h; cases h
     | found d reason =>
       rw [hres] at h
-      obtain ⟨hc, hname⟩ := resolve_spec _ _ _ ha0 _ _ _ _ _ _ _ _ hres
+      obtain ⟨hc, hname⟩ := resolve_spec _ _ _ _ ha0 _ _ _ _ _ _ _ _ hres
       rw [hv] at hres
-      have hver := resolve_explicit _ _ _ _ _ _ _ _ _ _ hres
+      have hver := resolve_explicit _ _ _ _ _ _ _ _ _ _ _ hres
       have := install_top_record (r.cfg db) rank hdag (setup (r.cfg db) k) (setup_recOK (r.cfg db) rank hdag k)
         false r.vro d reason hc _ s' (register_already (r.cfg db) 0 d reason (St.init e) ha0 hc) h
+      refine ⟨d.ver.2, ?_⟩
       rw [← hname, ← hver]; exact this
 
 /-! ## D17: the full statement is false when a product name is reachable from one of its own versions -/
@@ -104,8 +105,8 @@ def nTop : Name := [116]
 def nA : Name := [97]
 def nB : Name := [98]
 def nC : Name := [99]
-def v1 : Ver := [49]
-def v2 : Ver := [50]
+def v1 : Ver := ([49], 0)
+def v2 : Ver := ([50], 0)
 def PATH : Str := [80]
 def ALATE : Str := [76]
 
@@ -113,14 +114,14 @@ def ALATE : Str := [76]
 `a 1`: `envPrepend(PATH, $DIR/1); setupRequired(b); envPrepend(PATH, $DIR/2); envSet(L, $DIR)` -/
 def dbD17 : Db :=
   { decls := [
-      ⟨nTop, v1, [1], [(.always, .dep nA false false none none [])]⟩,
-      ⟨nA, v1, [2], [(.always, .prepend PATH [.own [1]] false), (.always, .dep nB false false none none []),
+      ⟨nTop, v1, [1], [(.always, .dep nA false false none none [] false)]⟩,
+      ⟨nA, v1, [2], [(.always, .prepend PATH [.own [1]] false), (.always, .dep nB false false none none [] false),
                      (.always, .prepend PATH [.own [2]] false), (.always, .set ALATE (.own []))]⟩,
-      ⟨nB, v1, [3], [(.always, .dep nA false false (some (.explicit v2)) none [])]⟩,
+      ⟨nB, v1, [3], [(.always, .dep nA false false (some (.explicit v2.1)) none [] false)]⟩,
       ⟨nA, v2, [4], [(.always, .prepend PATH [.own [1]] false)]⟩ ],
     tags := [(tagCurrent, nTop, v1), (tagCurrent, nA, v1), (tagCurrent, nB, v1)] }
 
-def reqTop : Request := ⟨nTop, none, false, none, false, []⟩
+def reqTop : Request := ⟨nTop, none, false, none, false, [], [0]⟩
 
 def envOf : Res → Option Setup.Env
   | .ok s => some s.env
@@ -150,8 +151,8 @@ def dbD34 : Db :=
 and `X = dir(a 1)` stay behind although `SETUP_A = a 2`.  The theorems' hypothesis `WellOwned (r.cfg db) e` (the prior
 environment was produced under the request's setup type) is what excludes this history. -/
 theorem C01_mixed_type_witness :
-    ∃ e1, envOf (runSetup dbD34 10 ⟨nA, none, false, none, false, []⟩ Setup.Env.empty) = some e1 ∧
-      envOf (runSetup dbD34 10 ⟨nA, some (.explicit v2), false, none, true, []⟩ e1) =
+    ∃ e1, envOf (runSetup dbD34 10 ⟨nA, none, false, none, false, [], [0]⟩ Setup.Env.empty) = some e1 ∧
+      envOf (runSetup dbD34 10 ⟨nA, some (.explicit v2.1), false, none, true, [], [0]⟩ e1) =
         some ⟨[(nA, v2)], [(nA, .own (nA, v2) [])], [(PATH, [.own (nA, v2) [1], .own (nA, v1) [2]])],
               [(AX, .own (nA, v1) [])]⟩ := by
   refine ⟨⟨[(nA, v1)], [(nA, .own (nA, v1) [])], [(PATH, [.own (nA, v1) [2], .own (nA, v1) [1]])],
@@ -162,9 +163,9 @@ theorem C01_mixed_type_witness :
 /-- `top → a → c 1`, `top → b → c 2` -/
 def dbDiamond : Db :=
   { decls := [
-      ⟨nTop, v1, [1], [(.always, .dep nA false false none none []), (.always, .dep nB false false none none [])]⟩,
-      ⟨nA, v1, [2], [(.always, .prepend PATH [.own [1]] false), (.always, .dep nC false false (some (.explicit v1)) none [])]⟩,
-      ⟨nB, v1, [3], [(.always, .prepend PATH [.own [1]] false), (.always, .dep nC false false (some (.explicit v2)) none [])]⟩,
+      ⟨nTop, v1, [1], [(.always, .dep nA false false none none [] false), (.always, .dep nB false false none none [] false)]⟩,
+      ⟨nA, v1, [2], [(.always, .prepend PATH [.own [1]] false), (.always, .dep nC false false (some (.explicit v1.1)) none [] false)]⟩,
+      ⟨nB, v1, [3], [(.always, .prepend PATH [.own [1]] false), (.always, .dep nC false false (some (.explicit v2.1)) none [] false)]⟩,
       ⟨nC, v1, [4], [(.always, .prepend PATH [.own [1]] false)]⟩,
       ⟨nC, v2, [5], [(.always, .prepend PATH [.own [1]] false)]⟩ ],
     tags := [(tagCurrent, nTop, v1), (tagCurrent, nA, v1), (tagCurrent, nB, v1), (tagCurrent, nC, v1)] }
@@ -202,7 +203,7 @@ theorem C01_closure_sound (db : Db) (fuel : Nat) (r : Request) (e : Setup.Env) (
 an empty `alreadySetupProducts`, as the top-level call does) — under `NameDag` -/
 theorem C01_requested_version_partial (db : Db) (rank : Name → Nat) (hdag : NameDag db rank) (fuel : Nat)
     (r : Request) (e : Setup.Env) (s' : St) (h : runSetup db fuel r e = .ok s') :
-    ∃ d reason, resolve db r.keep [] r.name r.version none 0 r.vro.length r.vro = .found d reason ∧
+    ∃ d reason, resolve db r.path r.keep [] r.name r.version none 0 r.vro.length r.vro = .found d reason ∧
       s'.env.rec? r.name = some d.ver := by
   unfold runSetup at h
   cases fuel with
@@ -210,12 +211,12 @@ theorem C01_requested_version_partial (db : Db) (rank : Name → Nat) (hdag : Na
   | succ k =>
     rw [setup_succ_true] at h
     have ha0 : AlreadyOK (r.cfg db).db (St.init e).already := by intro n d x h; simp [St.init, aget] at h
-    cases hres : resolve (r.cfg db).db (r.cfg db).keep (St.init e).already r.name r.version none 0 r.vro.length r.vro with
+    cases hres : resolve (r.cfg db).db (r.cfg db).path (r.cfg db).keep (St.init e).already r.name r.version none 0 r.vro.length r.vro with
     | none => rw [hres] at h; cases h
     | error => rw [hres] at h; cases h
     | found d reason =>
       rw [hres] at h
-      obtain ⟨hc, hname⟩ := resolve_spec _ _ _ ha0 _ _ _ _ _ _ _ _ hres
+      obtain ⟨hc, hname⟩ := resolve_spec _ _ _ _ ha0 _ _ _ _ _ _ _ _ hres
       have := install_top_record (r.cfg db) rank hdag (setup (r.cfg db) k) (setup_recOK (r.cfg db) rank hdag k)
         false r.vro d reason hc _ s' (register_already (r.cfg db) 0 d reason (St.init e) ha0 hc) h
       exact ⟨d, reason, hres, by rw [← hname]; exact this⟩
@@ -234,7 +235,7 @@ theorem C01_required_closure_partial (db : Db) (fuel : Nat) (r : Request) (e : S
     (h : runSetup db fuel r e = .ok s') :
     ReqSat (r.cfg db) (fun n => ∃ k, Within db r.name k n) (fun _ => False) s'.env ∧ ∃ w, s'.env.rec? r.name = some w := by
   have hcl : Closed (r.cfg db).db (fun n => ∃ k, Within db r.name k n) :=
-    fun d hd ⟨k, hk⟩ g n o j v x t hg => ⟨k + 1, Within.step hk hd rfl hg⟩
+    fun d hd ⟨k, hk⟩ g n o j v x t kl hg => ⟨k + 1, Within.step hk hd rfl hg⟩
   obtain ⟨h1, _, _, h4⟩ := setup_req (r.cfg db) _ hmd hcl hnj hone fuel (fun _ => False) 0 r.vro r.name r.version none
     (St.init e) s' ⟨0, Within.root⟩ (Or.inr hnot) (by intro n d x h; simp [St.init, aget] at h) hdecl hsat h
   exact ⟨h1, h4⟩
